@@ -1,1 +1,4 @@
+import LLRP.Props.C01
+import LLRP.Props.C02
+import LLRP.Props.C11
 import LLRP.Props.C19
